@@ -314,7 +314,7 @@ def c17_spec():
 REGISTRY['C17'] = c17_spec()
 
 def c19_spec():
-    import re, json, hashlib, subprocess
+    import re, json, hashlib, subprocess, shutil
     from concurrent.futures import ThreadPoolExecutor
     import check as CK
     GROUPS_Q = ['SO2', 'SE2', 'SO3', 'SE3', 'SE23', 'SGAL3', 'R1', 'R3', 'R9', 'BA', 'BT3', 'BT5']
@@ -394,6 +394,17 @@ def c19_spec():
                         res['notes'].append('TU does not build but every cell does: ' + out[-400:]); break
                 for cell, msg in new.items():
                     res['not_instantiable'][cell] = msg; exclude.add(cell)
+            # second compiler: clang++ 14 must accept every cell that g++ accepted (two-phase lookup / access differences)
+            if shutil.which('clang++-14') or shutil.which('clang++'):
+                cl = shutil.which('clang++-14') or shutil.which('clang++')
+                flags = [f for f in FLAGS if not f.startswith('-fsanitize') and f not in ('-fno-sanitize-recover=all', '-O1', '-fno-omit-frame-pointer')]
+                srcp2 = os.path.join(wd, 'c19_%s.cpp' % tag)
+                r2 = CK.sh([cl] + flags + ['-fsyntax-only', '-DMG=' + g, '-DMS=' + sc, srcp2])
+                res['clang'] = r2.returncode
+                if r2.returncode != 0:
+                    bad2 = cells_from_errors(r2.stdout, open(srcp2).read())
+                    if not bad2: res['clang_unattributed'] = (re.findall(r'error: ([^\n]*)', r2.stdout) or ['?'])[0][:300]
+                    for (k, stg), msg in bad2.items(): res.setdefault('clang_bad', {})[(names[k], stg)] = msg
             if not binp or not os.path.exists(binp):
                 res['notes'].append('no executable'); return res
             # execute; a crash is attributed to the cell after the last one reported, which is then excluded
@@ -436,6 +447,11 @@ def c19_spec():
                         fold.viol('nonfinite-result/%s/%s/%s' % (gs, stg, n), 1.0, {'group': gs, 'entry': n, 'storage': stg})
             for (n, stg), msg in r['not_instantiable'].items():
                 fold.viol('instantiate/%s/%s/%s' % (gs, stg, n), 1.0, {'group': gs, 'entry': n, 'storage': stg, 'first_diagnostic': msg})
+            for (n, stg), msg in r.get('clang_bad', {}).items():
+                fold.viol('instantiate-clang/%s/%s/%s' % (gs, stg, n), 1.0, {'group': gs, 'entry': n, 'storage': stg, 'compiler': 'clang++ 14', 'first_diagnostic': msg})
+            if r.get('clang_unattributed'):
+                fold.viol('instantiate-clang/%s/unattributed' % gs, 1.0, {'group': gs, 'compiler': 'clang++ 14', 'first_diagnostic': r['clang_unattributed']})
+            if 'clang' in r: fold.counters['clang-syntax-pass/' + ('ok' if r['clang'] == 0 else 'errors')] = fold.counters.get('clang-syntax-pass/' + ('ok' if r['clang'] == 0 else 'errors'), 0) + 1
             for (n, stg) in r['mismatch']:
                 fold.viol('storage-mismatch/%s/%s/%s' % (gs, stg, n), 1.0, {'group': gs, 'entry': n, 'storage': stg, 'what': 'result differs bit-wise from the owning instantiation'})
             for (cell, rc, out) in r['crash']:
@@ -454,7 +470,7 @@ def c19_spec():
         spec = {'level': 'exploration', 'rule': 'the finite matrix {%d documented API entries} x {storage kinds applicable: owning, Map, Map<const>} = %d cells per (group, scalar), x %d (group, scalar) pairs, is enumerated '
                 'completely; each cell is a generated function that is compiled, executed under ASan+UBSan on fixed operands, and whose result digest must equal the owning cell bit for bit; a cell is non-trivial when it was '
                 'executed; a cell that cannot be instantiated is attributed through the instantiation trace of the compiler diagnostics and reported with its first diagnostic' % (len(gen.ENTRIES), len(allcells), len(combos)),
-                'assumptions': ['g++ 12.2 -std=c++14 (the harness needs C++14; the library itself is C++11)', 'the compile step is a build-time observation (DESIGN.md 4/C19)']}
+                'assumptions': ['g++ 12.2 -std=c++14 (the harness needs C++14; the library itself is C++11); every TU is additionally passed through clang++ 14 -fsyntax-only', 'the compile step is a build-time observation (DESIGN.md 4/C19)']}
         return finish(p, tier, seed, fold, spec, t0, harness_fail=fail, extra_cov={'exhaustive': True, 'cells_in_matrix': total_cells, 'groups': ['%s/%s' % c for c in combos], 'entries': len(gen.ENTRIES)})
 
     return {'bins': bins, 'run': run}
@@ -533,5 +549,5 @@ MANIFEST_META = {
                 note=NOTE_NUM + ' Pairs whose tangent distance is not resolvable in the scalar type (eps < 1e4*u*|coordinates|) are counted, not judged.'),
     'C19': dict(engine='api-matrix builder', design_ref='DESIGN.md 4/C19', technique='exhaustive generated API matrix: each cell compiled, executed under ASan/UBSan, digest compared bit-wise with the owning instantiation',
                 text='The finite matrix {126 documented entries} x {owning, Map, Map<const>} x {12 (quick) / 17 (thorough) groups incl. bundles} x {float,double} is enumerated completely; a cell that cannot be instantiated is a violation attributed through the compiler instantiation trace; every other cell is executed and must reproduce the owning cell bit for bit.',
-                note='The instantiation half is observed at build time (the one place where the deciding event is not an execution, see DESIGN.md 4/C19). Only g++ 12 is used.'),
+                note='The instantiation half is observed at build time (the one place where the deciding event is not an execution, see DESIGN.md 4/C19). g++ 12 builds and runs the cells; clang++ 14 re-checks every TU with -fsyntax-only.'),
 }
